@@ -60,6 +60,9 @@ pub struct Job {
     /// before this job, to exercise the process-global tables; its outcome is discarded
     #[serde(default)]
     pub warm: BTreeMap<String, String>,
+    /// C19: a C translation unit compiled by the host gcc and linked with the object
+    #[serde(default)]
+    pub c_source: String,
 }
 fn default_main() -> String {
     "main.capy".into()
@@ -561,7 +564,34 @@ pub fn run_job(job: &Job, progress_path: &Path) -> JobResult {
         let obj = out_dir.join("prog.o");
         fs::write(&obj, &bytes).expect("write object");
         let linked = stage(&mut res, "link", &mut progress, || {
-            codegen::link_to_exec(&obj, &target, &[])
+            if job.c_source.is_empty() {
+                return codegen::link_to_exec(&obj, &target, &[]);
+            }
+            // the host C compiler builds the C side and links both objects
+            let c_file = out_dir.join("c_side.c");
+            fs::write(&c_file, &job.c_source).expect("write c source");
+            let c_obj = out_dir.join("c_side.o");
+            let cc = std::process::Command::new("gcc")
+                .args(["-c", "-O1", "-w", "-o"])
+                .arg(&c_obj)
+                .arg(&c_file)
+                .output()
+                .expect("gcc");
+            if !cc.status.success() {
+                return Err(codegen::LinkingErr::CmdFailed { cmd_name: "gcc -c", output: cc });
+            }
+            let exe = out_dir.join("prog");
+            let ld = std::process::Command::new("gcc")
+                .arg("-o")
+                .arg(&exe)
+                .arg(&obj)
+                .arg(&c_obj)
+                .output()
+                .expect("gcc");
+            if !ld.status.success() {
+                return Err(codegen::LinkingErr::CmdFailed { cmd_name: "gcc", output: ld });
+            }
+            Ok(exe)
         });
         match linked {
             Some(Ok(exe)) => {
